@@ -243,7 +243,7 @@ pub fn execute(v: &Value) -> String {
                     Ok(d) => (d.metadata.clone(), Ok(dump::dblocks(&d.blocks))),
                     Err(e) => (None, Err(panic_msg(e))),
                 };
-                let key = Key::from_file_name(name);
+                let key = Key::name(name);
                 let r = catch_unwind(AssertUnwindSafe(|| db.update_document(key.clone(), text.clone())));
                 let obs = match r {
                     Ok(()) => format!("(Ok {})", observe(&db, &queries)),
